@@ -318,6 +318,16 @@ def check_fit_emit(ctx, replay, out):
             else:
                 ctx.count("fit emit: hypotheses of insertInline_emits_valid_payload fail (closableB=%s slClosedValid=%s)"
                           % (rel.get("closable"), rel.get("slClosedValid")))
+        # fit_emits_valid_payload_of_inv (Props/C11.lean): schema guards, valid request slice, creatable element types, and
+        # the validity invariant (`FitState.validB`, in step) at the end of the loop => payload valid, for every request
+        if rel.get("endInv") is not None:
+            ctx.count("fit emit: validity invariant at the end of the loop (%s slice%s): %s"
+                      % (cls, "" if rel.get("slValid") else ", request slice not a valid payload", rel["endInv"]))
+            if rel["endInv"] and rel.get("hyp") and rel.get("leafOk") and rel.get("textStable") and rel.get("closable") \
+                    and rel.get("slValid"):
+                ctx.count("fit emit: hypotheses of fit_emits_valid_payload_of_inv hold (%s slice)" % cls)
+                if replay.get("payload") is not None:
+                    ctx.mismatch("fitEmit:valid-invariant-but-payload-invalid", replay, None, replay.get("payload"))
         if rel.get("inStep") is not None:
             ctx.count("fit emit: in-step invariant over the loop (%s slice): %s" % (cls, rel["inStep"]))
             if rel["inStep"] and g.get("wf") is not True:
